@@ -12,7 +12,7 @@ func init() {
 		Assumptions: []string{"go/ssa faithfully represents the source", "user key comparators and io.Writers do not modify the byte slices they are given"},
 		Run: func(c *Ctx) {
 			c.Do("C01.a", "L5 visibility decision table", 4, func() { clVisibilityTable(c); clDeltaPredicateTable(c); clItemComparatorTables(c) })
-			c.Do("C01.b", "L1+L3 in-order collection guard", 5, func() { clCollectorGuard(c) })
+			c.Do("C01.b", "L1+L3 in-order collection guard", 5, func() { clCollectorGuard(c); clDeltaHandshakeOrder(c); clStoreToDiskSnapRef(c) })
 			c.Do("C01.c", "L11+L3 published items are immutable", 8, func() { clItemImmutable(c); clAllocItemInitialises(c) })
 			c.Do("C01.d", "L2 epoch capture", 7, func() { clEpochCapture(c) })
 			c.Do("C01.f", "L1+L2 Count() bookkeeping follows the outcome of each operation", 15, func() {
